@@ -108,6 +108,11 @@ func adversarial(quick bool) []cell {
 			Files: map[string]string{h + ".thrift": "struct S { 1: optional i32 a }\nenum E { A }\nconst i32 c = 1\nservice V { void f() }"}})
 		out = append(out, cell{Name: fmt.Sprintf("adv%d", len(out)), Class: "name:included-file:" + h, Root: "t.thrift", Benign: mustAccept("name:included-file", h),
 			Files: map[string]string{h + ".thrift": "struct S { 1: optional i32 a }\nenum E { A }", "t.thrift": fmt.Sprintf("include \"./%s.thrift\"\nstruct T { 1: optional %s.S s; 2: optional list<%s.E> es }", h, h, h)}})
+		// the same include used in every other position: default, constant, typedef, map, required field, service signature
+		out = append(out, cell{Name: fmt.Sprintf("adv%d", len(out)), Class: "name:included-file-rich:" + h, Root: "t.thrift",
+			Files: map[string]string{h + ".thrift": "struct S { 1: optional i32 a }\nenum E { A }\nexception X { 1: optional string m }\nconst i32 K = 5\n",
+				"t.thrift": strings.ReplaceAll("include \"./@.thrift\"\nstruct T { 1: optional @.E e = @.E.A; 2: optional map<string, @.S> m; 3: required @.S r; 4: optional i32 k = @.K; 5: optional set<@.E> es }\n"+
+					"const @.S C = {\"a\": 1}\nconst list<@.E> L = [@.E.A]\ntypedef @.S TS\nunion U { 1: @.S s; 2: @.E e }\nservice Sv { @.S f(1: @.S a, 2: list<@.E> b) throws (1: @.X x) }\n", "@", h)}})
 	}
 	// colliding spellings in one scope
 	groups := [][]string{{"foo_bar", "fooBar", "FooBar", "FOO_BAR", "Foo_Bar"}, {"x", "X", "get_x", "GetX", "is_set_x", "IsSetX"}, {"id", "ID", "Id", "iD"}, {"a_b", "a__b", "aB"}, {"url_id", "urlId", "URLID", "UrlID"}}
@@ -138,6 +143,13 @@ func adversarial(quick bool) []cell {
 	// generated helper names colliding with user types
 	for _, n := range []string{"S_F_Args", "S_F_Result", "S_F_Helper", "_List_I32_ValueList", "Default_S", "E_Values", "SClient", "ThriftModule", "S_f_Args"} {
 		add("collide:helper", n, fmt.Sprintf("struct %s { 1: optional i32 a }\nstruct S { 1: optional list<i32> l }\nenum E { A }\nservice S2 { void F(1: i32 a) }\nservice SS { void f() }", n))
+	}
+	// a user type whose Go name is the helper-name spelling of a base type, used in the same containers as that base type
+	for _, bt := range [][2]string{{"String", "string"}, {"Binary", "binary"}, {"I32", "i32"}, {"I64", "i64"}, {"Bool", "bool"}, {"Double", "double"}, {"I8", "i8"}, {"Byte", "byte"}, {"I16", "i16"}} {
+		n, b := bt[0], bt[1]
+		add("collide:basetype-name", n, fmt.Sprintf("struct %s { 1: optional i32 a }\nstruct S { 1: optional list<%s> a; 2: optional list<%s> b; 3: optional map<string, %s> c; 4: optional map<string, %s> d }", n, n, b, n, b))
+		add("collide:basetype-name-enum", n, fmt.Sprintf("enum %s { A }\nstruct S { 1: optional list<%s> a; 2: optional list<%s> b; 3: optional set<%s> c; 4: optional set<%s> d }", n, n, b, n, b))
+		add("collide:basetype-name-typedef", n, fmt.Sprintf("typedef i64 %s\nstruct S { 1: optional list<%s> a; 2: optional list<%s> b }", n, n, b))
 	}
 	// annotations
 	for _, an := range []string{`go.name = "Renamed"`, `go.name = "renamed"`, `go.name = "Re_named"`, `go.name = "Other"`, `go.name = ""`, `go.name = "type"`, `go.name = "ToWire"`,
